@@ -19,6 +19,8 @@ ASSUMPTIONS = ["5'-overhang cutters (all kit cutters and the 58 supported enzyme
 
 
 def check_case(ctx, case):
+    if case.get("deg"):
+        return check_degenerate(ctx, case)
     if "enz" in case and "sig" in case:
         return check_three_prime(ctx, case)
     cls = asm.cls_by_name(case["cls"])
@@ -112,10 +114,46 @@ def check_three_prime(ctx, case):
                      "stretch between the two cuts".format(enz), case)
 
 
+def check_degenerate(ctx, case):
+    """a part class over a cutter whose site is degenerate: an accepted record really carries a site of the
+    enzyme on each strand (Bio.Restriction's own, IUPAC-aware search finds two cuts) — oracle only"""
+    enz = next(e for e in boot.degenerate_site_enzymes() if str(e) == case["enz"])
+    base = boot.AbstractModule if case["kind"] == "M" else boot.AbstractVector
+    cls = type("PartD_{}_{}".format(case["kind"], enz), (boot.AbstractPart, base),
+               {"cutter": enz, "signature": tuple(case["sig"])})
+    wd = case["word"]
+    res = T.evaluate(cls, wd)
+    ctx.note("degenerate-site:" + res[0])
+    ctx.case(case, nontrivial=res[0] == "valid", key=["deg", case["enz"], case["kind"], wd])
+    if res[0].startswith("exc"):
+        ctx.fail("{} raises {} on {!r}".format(cls.__name__, res[0], wd), case)
+    if res[0] == "valid":
+        cuts = enz.search(impl.Seq(wd), linear=False)
+        if len(cuts) < 2:
+            ctx.fail("{} accepts {!r} and reports overhangs {}/{} although {} cuts this plasmid {} time(s)".format(
+                cls.__name__, wd, res[1], res[2], enz, len(cuts)), case)
+    elif case.get("instance"):
+        ctx.fail("{} rejects an instance of its own structure built from real sites of {}: {!r}".format(
+            cls.__name__, enz, wd), case)
+
+
 def run(ctx):
     rng = ctx.rng
     kits = boot.kit_classes()
     three = boot.three_prime_enzymes()
+    degen = boot.degenerate_site_enzymes()
+    for _ in range(ctx.budget(40, 1500)):
+        enz = rng.choice(degen)
+        k = abs(enz.ovhg)
+        kind = rng.choice("MV")
+        sig = [gen.rnd(rng, k), gen.rnd(rng, k)]
+        base = boot.AbstractModule if kind == "M" else boot.AbstractVector
+        cls = type("PartD", (boot.AbstractPart, base), {"cutter": enz, "signature": tuple(sig)})
+        # (a) whatever the live structure spells  (b) the same with the enzyme's real sites written in
+        inst, _ = gen.instantiate(rng, cls.structure(), runlen=rng.choice([0, 3, 6]))
+        wd = inst + gen.rnd(rng, rng.randint(2, 8))
+        ctx.guard(check_degenerate, {"enz": str(enz), "kind": kind, "sig": sig, "deg": True,
+                                     "word": gen.rot(wd, rng.randrange(len(wd)))})
     for _ in range(ctx.budget(60, 2000)):
         enz = rng.choice(three)
         k = abs(enz.ovhg)
